@@ -154,8 +154,8 @@ AppendVerdict(g, c, t, ttl, meta, hash, ok, id, f) ==
              THEN (IF t = XC /\ f.ttl # Forever THEN {"C07"} ELSE {"C01", "C12"}) ELSE {})
 
 (* C20 (C05 for NUL): an import is stored as is, or rejected whole when it cannot be stored consistently: *)
-(* NUL in the topic, or another frame (other context or topic) already present under the id            *)
-ImportConflict(g, id, f) == id \in Present(g) /\ (g.acc[id].ctx # f.ctx \/ g.acc[id].topic # f.topic)
+(* NUL in the topic, or a different frame already present under the id (ids are unique)                 *)
+ImportConflict(g, id, f) == id \in Present(g) /\ g.acc[id] # f
 ImportVerdict(g, id, f, ok) ==
   LET nul == f.topic \in NulTopics IN
   IF ok THEN (IF nul THEN {"C05", "C20"} ELSE {})
